@@ -48,3 +48,44 @@ Section Along.
     destruct (idx3 a k b (dom A) post Hk Hb) as (-> & -> & ->). reflexivity.
   Qed.
 End Along.
+
+(* linearity is inherited by the lifting along an axis as well *)
+Section AlongWf.
+  Variable R : StarRing.
+  Add Ring Rr5b : (k_ring R).
+  Local Open Scope K_scope.
+
+  Lemma idx3_bound a k b M post pre : (a < pre)%nat -> (k < M)%nat -> (b < post)%nat ->
+    (a * (M * post) + (k * post + b) < pre * (M * post))%nat.
+  Proof.
+    intros Ha Hk Hb.
+    assert (H1 : (k * post + b < M * post)%nat) by nia.
+    assert (H2 : ((a + 1) * (M * post) <= pre * (M * post))%nat) by (apply Nat.mul_le_mono_r; lia).
+    lia.
+  Qed.
+
+  Lemma flat_decompose i M post : (0 < M)%nat -> (0 < post)%nat ->
+    (i = (i / (M * post)) * (M * post) + (((i / post) mod M) * post + i mod post))%nat.
+  Proof.
+    intros HM Hp.
+    rewrite (Nat.div_mod i post) at 1 by lia.
+    rewrite (Nat.div_mod (i / post) M) at 1 by lia.
+    rewrite Nat.div_div by lia. rewrite (Nat.mul_comm post M). nia.
+  Qed.
+
+  Theorem along_wf pre post (A : linop R) : (0 < post)%nat -> (0 < dom A)%nat -> (0 < ran A)%nat -> wf A -> wf (along pre post A).
+  Proof.
+    intros Hp Hd Hr (LA & EA & LA' & EA'). unfold wf. cbn [along dom ran fwd adj].
+    assert (B1 : forall i, (i < pre * (ran A * post))%nat -> ((i / post) mod ran A < ran A)%nat) by (intros; apply Nat.mod_upper_bound; lia).
+    assert (B2 : forall j, (j < pre * (dom A * post))%nat -> ((j / post) mod dom A < dom A)%nat) by (intros; apply Nat.mod_upper_bound; lia).
+    split; [|split; [|split]].
+    - intros a b x y i Hi. rewrite <- LA by (apply B1; exact Hi). apply EA; [|apply B1; exact Hi]. intros k Hk. reflexivity.
+    - intros x y H i Hi. apply EA; [|apply B1; exact Hi]. intros k Hk. apply H.
+      apply idx3_bound; [|exact Hk|apply Nat.mod_upper_bound; lia].
+      apply Nat.div_lt_upper_bound; [nia|]. rewrite Nat.mul_comm. exact Hi.
+    - intros a b x y j Hj. rewrite <- LA' by (apply B2; exact Hj). apply EA'; [|apply B2; exact Hj]. intros k Hk. reflexivity.
+    - intros x y H j Hj. apply EA'; [|apply B2; exact Hj]. intros k Hk. apply H.
+      apply idx3_bound; [|exact Hk|apply Nat.mod_upper_bound; lia].
+      apply Nat.div_lt_upper_bound; [nia|]. rewrite Nat.mul_comm. exact Hj.
+  Qed.
+End AlongWf.
